@@ -111,7 +111,7 @@ func obsCalc(c *calculator.ExpressionCalculator, text string) []any {
 	if res == nil {
 		return []any{"nil"}
 	}
-	return []any{"ok", int(res.Type()), res.String()}
+	return []any{"ok", int(res.Type()), cl(res.String())}
 }
 
 func obsTmpl(t *mustache.MustacheTemplate, text string) []any {
@@ -174,7 +174,7 @@ func init() {
 					if res == nil {
 						return []any{"nil"}
 					}
-					return []any{"ok", int(res.Type()), res.String()}
+					return []any{"ok", int(res.Type()), cl(res.String())}
 				}
 				fc := calculator.NewExpressionCalculator()
 				fc.SetAutoVariables(false)
@@ -207,7 +207,7 @@ func init() {
 					if res == nil {
 						return []any{"nil"}
 					}
-					return []any{"ok", int(res.Type()), res.String()}
+					return []any{"ok", int(res.Type()), cl(res.String())}
 				}
 				fc := calculator.NewExpressionCalculator()
 				for _, op := range c05cur.fnops {
